@@ -561,6 +561,178 @@ def check_effect_roles(fx, rep, dm):
     rep.floor("R07.2", n, 20, "instructions with a memory / storage effect row")
 
 
+def _ival(e, env, root, depth=0):
+    """Integer value of a HIR expression under `env` (local id -> int); None if it is not arithmetic over env."""
+    if e is None or depth > 12:
+        return None
+    e = F.strip(e)
+    k = e.get("k")
+    if k == "Lit" and e.get("value", {}).get("lit") == "int":
+        try:
+            return int(e["value"]["v"])
+        except (TypeError, ValueError):
+            return None
+    if k == "Path" and e.get("res") == "local":
+        if e["local"] in env:
+            return env[e["local"]]
+        init = _binding_init(root, e["local"])
+        return _ival(init, env, root, depth + 1) if init is not None else None
+    if k in ("Cast", "AddrOf") or (k == "Unary" and e.get("op") == "Deref"):
+        return _ival(e["e"], env, root, depth + 1)
+    if k == "Binary":
+        l, r = _ival(e["l"], env, root, depth + 1), _ival(e["r"], env, root, depth + 1)
+        if l is None or r is None:
+            return None
+        op = e["op"]
+        if op == "Add":
+            return l + r
+        if op == "Sub":
+            return l - r
+        if op == "Mul":
+            return l * r
+        if op == "Div":
+            return l // r if r else None
+        if op == "Rem":
+            return l % r if r else None
+        if op == "Shr":
+            return l >> r
+        if op == "Shl":
+            return l << r
+        return None
+    if k == "MethodCall":
+        a0 = _ival(e["recv"], env, root, depth + 1)
+        args = [_ival(a, env, root, depth + 1) for a in e["args"]]
+        m = e["method"]
+        if a0 is None or any(a is None for a in args):
+            return None
+        if m == "div_ceil" and args and args[0]:
+            return -(-a0 // args[0])
+        if m in ("min",) and args:
+            return min(a0, args[0])
+        if m in ("max",) and args:
+            return max(a0, args[0])
+        if m in ("saturating_add", "wrapping_add", "checked_add") and args:
+            return a0 + args[0]
+        if m in ("saturating_sub",) and args:
+            return max(0, a0 - args[0])
+        if m in ("next_multiple_of",) and args and args[0]:
+            return -(-a0 // args[0]) * args[0]
+        if m in ("into", "clone", "unwrap"):
+            return a0
+        return None
+    if k == "Call":
+        name = (F.callee_def(e) or "").split("::")[-1]
+        if name in ("from", "into") and len(e["args"]) == 1:
+            return _ival(e["args"][0], env, root, depth + 1)
+        return None
+    return None
+
+
+def _iter_values(it, env, root):
+    """The sequence an iterator expression yields (ranges with step_by / enumerate / rev-free), as python values; None if
+    it is not such an expression."""
+    it = F.strip(it)
+    if it.get("k") == "MethodCall":
+        base = _iter_values(it["recv"], env, root)
+        if base is None:
+            return None
+        m = it["method"]
+        if m == "step_by" and it["args"]:
+            c = _ival(it["args"][0], env, root)
+            return base[::c] if c else None
+        if m == "enumerate":
+            return list(enumerate(base))
+        if m in ("into_iter", "iter"):
+            return base
+        return None
+    if it.get("k") == "Struct" and str(it.get("adt", "")).endswith("ops::Range"):
+        fl = {f["field"]: f["e"] for f in it["fields"]}
+        lo, hi = _ival(fl.get("start"), env, root), _ival(fl.get("end"), env, root)
+        return list(range(lo, hi)) if lo is not None and hi is not None and hi - lo < 100000 else None
+    if it.get("k") == "Call" and "RangeInclusive" in (F.callee_def(it) or "") and len(it["args"]) == 2:
+        lo, hi = _ival(it["args"][0], env, root), _ival(it["args"][1], env, root)
+        return list(range(lo, hi + 1)) if lo is not None and hi is not None and hi - lo < 100000 else None
+    if it.get("k") == "Struct" and "RangeInclusive" in str(it.get("adt", "")):
+        fl = {f["field"]: f["e"] for f in it["fields"]}
+        lo, hi = _ival(fl.get("start"), env, root), _ival(fl.get("end"), env, root)
+        return list(range(lo, hi + 1)) if lo is not None and hi is not None else None
+    return None
+
+
+def check_copy_loops(fx, rep):
+    """R07.2 (copy loops): an instruction that copies `size` bytes into memory word by word writes the words at offsets
+    0, 32, .. below `size` - and no word at or beyond `destOffset + size`, which the EVM leaves untouched. The loop's iterator and
+    the offset it adds to the destination are evaluated for sizes around the word boundaries."""
+    from .c13 import for_loop_parts
+
+    n = 0
+    cands = [b for i_, b in fx.trait_method_bodies("opcode::Opcode", "execute")] + [b for b in fx.fn_bodies() if b["def"].startswith("opcode::") and b.get("hir") and not b.get("impl_self") and str(b.get("kind")).lower() == "fn"]
+    for b in cands:
+        root = b["hir"]["value"]
+        k_loop = 0
+        for loop, lps in F.exprs(root, "Loop"):
+            if "ForLoop" not in (loop.get("source") or ""):
+                continue
+            stores = [c for c, _ in F.calls(loop["body"]) if c.get("k") == "MethodCall" and c["method"] in ("store", "store_8") and "vm::state::memory::Memory" in (c.get("recv_ty") or "")]
+            if not stores:
+                continue
+            parts = for_loop_parts(loop, lps)
+            k_loop += 1
+            n += 1
+            key = f"copy-loop:{F.strip_generics(b['def'])}#{k_loop}"
+            if parts is None:
+                rep.oblige(False, "R07.2", key, F.loc(loop["span"]), f"the copy loop of `{b['def']}` is not a `for` over a range: the words it writes cannot be compared with the copied region")
+                continue
+            pat, it = parts
+            # the size variable: the (single) local the iterator's bounds mention
+            size_l = None
+            for x, _ in F.walk(it):
+                if x.get("k") == "Path" and x.get("res") == "local":
+                    size_l = x["local"]
+                    break
+            # ... looking through bindings that are plain arithmetic over one other local (`let words = size / 32 + 1`)
+            for _hop in range(4):
+                init = _binding_init(root, size_l) if size_l is not None else None
+                if init is None:
+                    break
+                inner = [x["local"] for x, _ in F.walk(init) if x.get("k") == "Path" and x.get("res") == "local"]
+                if len(set(inner)) == 1 and _ival(init, {inner[0]: 64}, root) is not None:
+                    size_l = inner[0]
+                else:
+                    break
+            # the value added to the destination: KnownWord::from(X) / X.into() inside the body
+            adds = [c for c, _ in F.calls(loop["body"]) if c.get("k") == "Call" and (F.callee_def(c) or "").split("::")[-1] == "from" and (c.get("ty") or "").endswith("KnownWord") and len(c["args"]) == 1]
+            adds += [c for c, _ in F.calls(loop["body"]) if c.get("k") == "MethodCall" and c["method"] == "into" and (c.get("ty") or "").endswith("KnownWord")]
+            bound = [pb.get("local") for pb in ([pat] if pat.get("p") == "Bind" else pat.get("pats", [])) if isinstance(pb, dict)]
+            bad = None
+            for N in (0, 1, 31, 32, 33, 64, 65, 96):
+                seq = _iter_values(it, {size_l: N} if size_l is not None else {}, root)
+                if seq is None or not adds:
+                    bad = "the loop's range or the offset it adds is not plain arithmetic over the copied size"
+                    break
+                offs = set()
+                for v in seq:
+                    vals = list(v) if isinstance(v, tuple) else [v]
+                    env = {lid: val for lid, val in zip(bound, vals) if lid is not None}
+                    if size_l is not None:
+                        env[size_l] = N
+                    o = _ival(adds[0]["args"][0] if adds[0].get("k") == "Call" else adds[0]["recv"], env, loop["body"])
+                    if o is None:
+                        bad = "the offset added to the destination is not plain arithmetic over the loop variables"
+                        break
+                    offs.add(o)
+                if bad:
+                    break
+                want = {k32 * 32 for k32 in range((N + 31) // 32)}
+                if offs != want:
+                    extra = sorted(offs - want)
+                    missing = sorted(want - offs)
+                    bad = f"for a size of {N} bytes it writes the words at {sorted(offs)} (expected {sorted(want)})" + (f": {extra} lie at or beyond destOffset + size, memory the EVM leaves untouched" if extra else f": {missing} are never written")
+                    break
+            rep.oblige(bad is None, "R07.2", key, F.loc(loop["span"]), f"`{b['def']}`: {bad}", sample={"rule": "R07.2", "fn": b["def"], "loop": key, "sizes_evaluated": [0, 1, 31, 32, 33, 64, 65, 96]} if n <= 2 else None)
+    rep.floor("R07.2", n, 5, "word-by-word copy loops in the opcode implementations")
+
+
 def check_r073(fx, rep, cg, dm):
     exec_body = {i.get("self_adt"): b for i, b in fx.trait_method_bodies("opcode::Opcode", "execute")}
     ea = EffectAnalysis(fx, cg)
@@ -827,6 +999,7 @@ def check(fx, rep, tier):
     check_r071(fx, rep, cg, dm)
     check_r072(fx, rep, dm)
     check_effect_roles(fx, rep, dm)
+    check_copy_loops(fx, rep)
     check_r073(fx, rep, cg, dm)
     check_r074(fx, rep, cg)
     check_key_agreement(fx, rep, cg)
